@@ -31,7 +31,7 @@ QUEUE_CALLS = {'buffer': ('const', 'ptr', '0'), 'BINLOG_VERIF_POINT': ('ignore',
 SPECS = [
     dict(area='Queue', lean_name='writeCapacity', file=QW, function='writeCapacity', ret='u64',
          inputs={'_writePos': 'ptr', '_writeEnd': 'ptr'}, vars=QUEUE_VARS, calls=QUEUE_CALLS),
-    dict(area='Queue', lean_name='unreadWriteSize', file=QW, function='unreadWriteSize', ret='u64',
+    dict(area='Queue', watch=['dataEnd'], lean_name='unreadWriteSize', file=QW, function='unreadWriteSize', ret='u64',
          inputs={'writeIndex': 'u64', 'readIndex': 'u64', 'dataEnd': 'u64'}, vars=QUEUE_VARS, atomics=QUEUE_ATOMICS,
          calls=QUEUE_CALLS),
     dict(area='Queue', lean_name='beginWrite', file=QW, function='beginWrite', ret='bool',
@@ -46,12 +46,12 @@ SPECS = [
     dict(area='Queue', lean_name='endWrite', file=QW, function='endWrite', ret=None,
          inputs={'_writePos': 'ptr'}, vars=QUEUE_VARS, atomics=QUEUE_ATOMICS, store_outputs=['writeIndex_store'],
          calls=QUEUE_CALLS),
-    dict(area='Queue', lean_name='maximizeWriteCapacity', file=QW, function='maximizeWriteCapacity', ret='u64',
+    dict(area='Queue', watch=['dataEnd'], lean_name='maximizeWriteCapacity', file=QW, function='maximizeWriteCapacity', ret='u64',
          inputs={'writeIndex': 'u64', 'readIndex': 'u64', 'capacity': 'u64', 'dataEnd': 'u64', '_writePos': 'ptr', '_writeEnd': 'ptr'},
          vars=QUEUE_VARS, atomics=QUEUE_ATOMICS, outputs=['_writePos', '_writeEnd', 'dataEnd'], calls=QUEUE_CALLS,
          inline_pure={'writeCapacity': (QW, 'writeCapacity')}),
     # QueueReader::beginRead returns ReadResult{buffer1, size1, buffer2, size2}; the aggregate is rewritten to four assignments
-    dict(area='Queue', lean_name='beginRead', file=QR, function='beginRead', ret=None,
+    dict(area='Queue', watch=['dataEnd'], lean_name='beginRead', file=QR, function='beginRead', ret=None,
          inputs={'writeIndex': 'u64', 'readIndex': 'u64', 'dataEnd': 'u64', '_readEnd': 'u64',
                  'buffer1': 'ptr', 'size1': 'u64', 'buffer2': 'ptr', 'size2': 'u64'},
          vars=dict(QUEUE_VARS, buffer1=('buffer1', 'ptr'), size1=('size1', 'u64'), buffer2=('buffer2', 'ptr'), size2=('size2', 'u64')),
